@@ -171,6 +171,14 @@ func (*c04) Corpus() []any {
 		o.name("string", 0, []c04Seg{{Key: "b", Idx: []int{0}}, {Key: "name"}})
 		out = append(out, c04Case{Kind: "opts", Tag: "corpus-opts", Opts: o})
 	}
+	// false-alarm witness of flag-frame (round 4, thorough tier): after "x=1 , d=…" the second pair
+	// names " d" (the blank after the comma is part of the key), not "d"
+	{
+		o := &c04Opts{Files: []vtree{{"d": ""}}, JSON: []string{"b=false , d=[null]", "x= , d=[{\"k\":\"v\"}]"}}
+		o.name("json", 0, []c04Seg{{Key: "b"}}, []c04Seg{{Key: " d"}})
+		o.name("json", 1, []c04Seg{{Key: "x"}}, []c04Seg{{Key: " d"}})
+		out = append(out, c04Case{Kind: "opts", Tag: "corpus-opts", Opts: o})
+	}
 	fams := []string{"file", "json", "set", "string", "setfile", "literal"}
 	for i := 0; i < len(fams); i++ {
 		for j := i + 1; j < len(fams); j++ {
